@@ -13,7 +13,7 @@ from vf.fixtures import check, wone_of
 
 PROPERTY = "C16"
 CASE_TIMEOUT_S = 10      # a case normally takes < 0.2 s; see DESIGN.md 2.9 (hang handling)
-BUDGET = {"quick": 600, "thorough": 1500}
+BUDGET = {"quick": 1000, "thorough": 3000}
 RULE = ("1-6 parameter combinations (grid a x b, or a alone), each with its own tuple of per-repetition scores served by a "
         "fixture model on its k-th instantiation (so a reused model or a skipped repetition shows); scores: ints of any "
         "magnitude incl. beyond +-sys.maxsize, negative, tied across combinations, non-monotone, dyadic floats, 1e300; all 8 "
@@ -55,9 +55,31 @@ class ScoreModel(Model):
             time.sleep(t["cost"][cid % len(t["cost"])] / 1000.0)   # schedule perturbation only; the oracle is order-free
         if t["complete_at"] is not None:
             self.systems.add_system(Finisher(self, t["complete_at"]))
+        if t.get("dt") is not None:
+            self.timestep = t["dt"]     # the model's OWN attribute of that name (a step length, say): not the scheduler's counter
 
 
 def score_of(model):
+    return model.score_value
+
+
+class TinyModel(Model):
+    def __init__(self, x):
+        super().__init__()
+        self.x = x
+        self.systems.add_system(Finisher(self, 1))
+
+
+def tiny_score(model):
+    return -model.x
+
+
+def score_nested(model):
+    """a score function that itself runs a (serial) search over another model - e.g. calibrating an inner parameter for every
+    outer combination - before reporting the outer model's score: searches must not share state"""
+    best, results = grid_search(TinyModel, {"x": [0, 1, 2]}, tiny_score, processes=1, repetitions=2, mode=ScoreMode.MIN, max_timesteps=5)
+    if best.get("x") != 2 or [r.get("records") for r in results] != [[0, 0], [-1, -1], [-2, -2]]:
+        return ("inner-search-wrong", str(best)[:80])
     return model.score_value
 
 
@@ -108,7 +130,8 @@ def _run_case(case):
     if complete_at is None and max_ts is None:
         raise InvalidCase("model never stops")
     cost = [max(0, min(int(c), 5)) for c in case.get("cost", [])] if int(case.get("processes", 1)) > 1 else []
-    table = json.dumps({"nb": nb, "scores": combos, "complete_at": complete_at, "cost": cost})
+    table = json.dumps({"nb": nb, "scores": combos, "complete_at": complete_at, "cost": cost, **({"dt": case["dt"]} if case.get("dt") is not None else {})})
+    score_fn = score_nested if case.get("nested") else score_of
     a_vals = list(range(na))
     params = {"a": a_vals if (na > 1 or case.get("a_list")) else 0, "table": table}
     if nb > 1 or case.get("b_list"):
@@ -125,7 +148,9 @@ def _run_case(case):
         kw = {}
         if max_ts is not None:
             kw["max_timesteps"] = int(max_ts)
-        return grid_search(ScoreModel, p, score_of, processes=processes, repetitions=reps, mode=mode, **kw)
+        if case.get("positional") and "max_timesteps" in kw:     # every argument in its documented position
+            return grid_search(ScoreModel, p, score_fn, processes, kw["max_timesteps"], reps, mode)
+        return grid_search(ScoreModel, p, score_fn, processes=processes, repetitions=reps, mode=mode, **kw)
 
     def verify(best, results, tag):
         if not isinstance(results, list) or len(results) != len(combos):
@@ -161,6 +186,9 @@ def _run_case(case):
                 ok = isinstance(res["score"], float) and _safe_float(exact) == res["score"]      # the correctly rounded quotient
             else:
                 ok = _close(res["score"], exact, tol, n)
+            if is_float and isinstance(res["score"], float) and res["score"] in (float("inf"), float("-inf")):
+                # a sum of floats beyond the largest float legitimately overflows to +-inf (sign as the exact value)
+                ok = abs(exact) > Fraction(MAXFLOAT) and (res["score"] > 0) == (exact > 0) and mode in (ScoreMode.MIN_SUM, ScoreMode.MAX_SUM)
             if not ok:
                 raise Violation(f"aggregate-{mode.name}", f"{tag}: combination {i} records {want}: reported score {res['score']!r}, exact value {exact} (~{_safe_float(exact)})")
             aggs.append(res["score"])
@@ -177,6 +205,10 @@ def _run_case(case):
     best, results = call(1)
     first, aggs = verify(best, results, "serial")
     labels = {mode.name, "float" if is_float else "int", f"reps{reps}"}
+    if case.get("nested"):
+        labels.add("score-function-runs-a-nested-search")
+    if case.get("dt") is not None:
+        labels.add("model-has-own-timestep-attribute")
     if len(combos) > 32:
         labels.add("combinations>32")
     procs = int(case.get("processes", 1))
@@ -195,6 +227,9 @@ def _run_case(case):
         labels.add("beyond-maxsize")
     labels.add("opt-first" if first == 0 else ("opt-last" if first == len(combos) - 1 else "opt-middle"))
     return {"nontrivial": (len(combos) >= 3 and first != 0) or tie or beyond, "labels": sorted(labels)}
+
+
+MAXFLOAT = 1.7976931348623157e308
 
 
 def _safe_float(fr):
@@ -234,12 +269,18 @@ def strategy(tier):
                 base = wone_of(base, base, base, st.sampled_from([1e300, -1e300, 1e18, -3.5e17, 1.7e308, -1.7e308, 1.5e308]))
             elif mode < 6:
                 base = wone_of(base, base, base, st.sampled_from([1e300, -1e300, 1e18, -3.5e17]))
+                if draw(st.integers(0, 5)) == 0:      # sums that overflow: every aggregate is +inf (or -inf), all tie, the first one wins
+                    base = st.sampled_from([1.7e308, 1.5e308, 1.2e308]) if draw(st.booleans()) else st.sampled_from([-1.7e308, -1.5e308, -1.2e308])
+                    reps = max(reps, 2)
         else:
             big = st.sampled_from([MAXSIZE, -MAXSIZE, MAXSIZE + 1, -MAXSIZE - 1, 4 * MAXSIZE, 8 * MAXSIZE, 12 * MAXSIZE,
                                    -4 * MAXSIZE, -8 * MAXSIZE, 2 ** 70, -2 ** 70, 2 ** 53 + 1, 2 ** 53 + 3, 10 ** 17 + 3,
                                    10 ** 17 + 1, -(2 ** 60) - 7, 10 ** 17 + 5])
-            kind = draw(st.integers(0, 5))
-            if kind == 0:
+            kind = draw(st.integers(0, 6))
+            if kind == 6:       # a cluster of huge scores a few units apart: equal as floats, different as integers
+                anchor = draw(st.sampled_from([2 ** 53, 2 ** 60, 10 ** 17, -2 ** 62, 2 ** 64, -10 ** 18]))
+                base = st.integers(0, 9).map(lambda k, _a=anchor: _a + k)
+            elif kind == 0:
                 base = big
             elif kind == 1:
                 base = wone_of(big, st.integers(-5, 5))
@@ -255,6 +296,7 @@ def strategy(tier):
         return {"na": na, "nb": nb, "float": is_float, "mode": mode, "reps": reps, "scores": scores, "processes": procs,
                 "plist": draw(st.booleans()), "a_list": draw(st.booleans()), "b_list": draw(st.booleans()),
                 "complete_at": complete_at, "max_timesteps": max_ts,
+                "positional": draw(st.integers(0, 2)) == 0, "nested": draw(st.integers(0, 5)) == 0 and not large, "dt": draw(st.sampled_from([None, None, None, None, None, 0.25, 2, 100])),
                 "cost": [draw(st.sampled_from([0, 0, 1, 3])) for _ in range(n)] if procs > 1 else []}
     return case()
 
